@@ -88,7 +88,9 @@ def replay_chunk(args):
             if edge in ("last", "both"):
                 drop.add(codes[-1])
             drop |= {i for i in codes[1:-1] if rnd.random() < 0.1}
-            text, lines_of = render.render_c(prog, seed=rnd.random(), fortran=(ext != ".c"), drop=drop)
+            fchain = ext != ".c" and len(codes) >= 2 and rnd.random() < 0.5
+            text, lines_of = render.render_c(prog, seed=rnd.random(), fortran=(ext != ".c"), drop=(() if fchain else drop),
+                                             fchain=fchain)
             root = os.path.join(d, f"p{ci}")
             os.makedirs(root)
             path = os.path.join(root, "m" + ext)
